@@ -404,7 +404,12 @@ _SIEVE_MAX = 20000
 
 def run_sieve(desc):
   primes = R.primes_below(_SIEVE_MAX + 1)
-  for n in range(desc['lo'], desc['lo'] + desc['cnt']):
+  ns = list(range(desc['lo'], desc['lo'] + desc['cnt']))
+  if desc.get('order') == 'desc':
+    # a larger bound is sieved first (the result must not depend on earlier, larger requests)
+    libcall(ntheory_util.Sieve, desc['lo'] + desc['cnt'] + 1000)
+    ns.reverse()
+  for n in ns:
     got = libcall(ntheory_util.Sieve, n)
     expected = primes[:bisect.bisect_left(primes, n)]
     if not isinstance(got, list) or [int(v) for v in got] != expected:
@@ -418,6 +423,8 @@ def run_sieve(desc):
 def enum_sieve(tier):
   for lo in range(0, _SIEVE_MAX + 1, 50):
     yield {'lo': lo, 'cnt': min(50, _SIEVE_MAX + 1 - lo)}
+  for lo in range(0, _SIEVE_MAX + 1, 50 if tier == 'thorough' else 250):
+    yield {'lo': lo, 'cnt': min(50, _SIEVE_MAX + 1 - lo), 'order': 'desc'}
 
 
 # =============================================================================
